@@ -8,6 +8,6 @@ h['obligations'] = ['round trip: after setState(T), any further setState/compare
                     'SP blocks exist exactly while referenced']
 _rp = _ilu.spec_from_file_location('realspec', os.path.join(os.path.dirname(os.path.abspath(__file__)), '..', 'real', 'spec.py'))
 _real = _ilu.module_from_spec(_rp); _rp.loader.exec_module(_real)
-HARNESSES = [h] + copy.deepcopy([x for x in _real.HARNESSES if x['name'] == 'h_realvtb'] + _real.SP_HARNESSES)
+HARNESSES = [h] + copy.deepcopy([x for x in _real.HARNESSES if x['name'] == 'h_realvtb'] + _real.SP_HARNESSES + [x for x in _real.CTX_HARNESSES if x['name'] == 'h_realrefs'])
 EXPLANATION = _c02.EXPLANATION + ' C01 is decided through the round-trip and rollback digest obligations of this harness.'
 ASSUMPTIONS = _real.ASSUMPTIONS + _c02.ASSUMPTIONS + ['history independence for histories longer than the explored ones rests on the exact-inverse obligations (an argument, not a solver result)', 'AddVTB, payouts and the real ALT/VBK payload plumbing are outside']
